@@ -2,7 +2,8 @@
   Props/C11.lean — property theorems for C11 (multiplexed requests carry unique, unreserved
   tags that are recycled safely).
 
-  Quantification.  `cfg.max` is any pool size ≥ 2 (the transport uses 2^24 − 1).  `ops` is any
+  Quantification.  `cfg.max` is any pool size ≥ 2 (the transports use 2^24 − 1), `cfg.fl` either
+  transport sink (ThriftMux or Kafka).  `ops` is any
   finite sequence of atomic steps of the transport — requests with or without a deadline event
   (already passed or not), deadline events firing before or after transmission, send-loop
   iterations, time-out callbacks, *any* frame from the peer (`process mtype tag`: every type,
@@ -53,13 +54,14 @@ theorem C11_range (cfg : Cfg) (ops : List Op) (hc : cfgWF cfg = true)
     have := hr o.assigned (by unfold givenTags; simp [hq])
     omega
 
-/-- the transport's pool (`TagPool(2^24 − 1)`): tags lie between 2 and 2^24 − 2 -/
-theorem C11_range_transport (ops : List Op) (ho : opsOk ⟨2 ^ 24 - 1⟩ St.init ops = true)
+/-- the transports' pool (`TagPool(2^24 − 1)`, ThriftMux and Kafka alike): tags lie between 2
+    and 2^24 − 2 -/
+theorem C11_range_transport (fl : Flavour) (ops : List Op) (ho : opsOk ⟨2 ^ 24 - 1, fl⟩ St.init ops = true)
     (h1 h2 : List (Op × Obs)) (op : Op) (o : Obs)
-    (htr : comp.modelTrace ⟨2 ^ 24 - 1⟩ ops = h1 ++ (op, o) :: h2) :
+    (htr : comp.modelTrace ⟨2 ^ 24 - 1, fl⟩ ops = h1 ++ (op, o) :: h2) :
     ∀ f ∈ o.wrote, f.kind = .req → 2 ≤ f.tag ∧ f.tag ≤ 2 ^ 24 - 2 := by
   intro f hf hk
-  have := (C11_range ⟨2 ^ 24 - 1⟩ ops (by decide) ho h1 h2 op o htr).1 f hf hk
+  have := (C11_range ⟨2 ^ 24 - 1, fl⟩ ops (by simp [cfgWF]) ho h1 h2 op o htr).1 f hf hk
   simp only at this
   omega
 
@@ -169,12 +171,12 @@ theorem C11_exhaustion_raises (max : Nat) (p : Pool) (popped : Nat) :
     when the pool is exhausted, and a refused request changes neither the pool nor the tag
     map nor the send queue. -/
 theorem C11_exhaustion_no_tag (cfg : Cfg) (s : St) (e : EvKind) (popped : Nat) :
-    ((stepOp cfg.max s (.req e popped)).2.res = .exhausted ↔ (s.pool.free = [] ∧ s.pool.next + 1 = cfg.max)) ∧
-    ((stepOp cfg.max s (.req e popped)).2.res = .exhausted →
-      (stepOp cfg.max s (.req e popped)).1.pool = s.pool ∧
-      (stepOp cfg.max s (.req e popped)).1.tagmap = s.tagmap ∧
-      (stepOp cfg.max s (.req e popped)).1.sendq = s.sendq ∧
-      (stepOp cfg.max s (.req e popped)).2.assigned = 0) := by
+    ((stepOp cfg.fl cfg.max s (.req e popped)).2.res = .exhausted ↔ (s.pool.free = [] ∧ s.pool.next + 1 = cfg.max)) ∧
+    ((stepOp cfg.fl cfg.max s (.req e popped)).2.res = .exhausted →
+      (stepOp cfg.fl cfg.max s (.req e popped)).1.pool = s.pool ∧
+      (stepOp cfg.fl cfg.max s (.req e popped)).1.tagmap = s.tagmap ∧
+      (stepOp cfg.fl cfg.max s (.req e popped)).1.sendq = s.sendq ∧
+      (stepOp cfg.fl cfg.max s (.req e popped)).2.assigned = 0) := by
   have hex := C11_exhaustion_raises cfg.max s.pool popped
   simp only [stepOp, stepReq]
   cases hg : s.pool.get cfg.max popped with
@@ -213,6 +215,18 @@ theorem C11_unanswered_in_tagmap (cfg : Cfg) (ops : List Op) (hc : cfgWF cfg = t
   have hk := hinv.q.usub t ht
   exact ⟨hk, fun hf => hinv.pool.disj t hf hk⟩
 
+/-- **Kafka: a time-out keeps the tag leased.**  `KafkaTransportSink._OnTimeout` is `pass`: the
+    time-out callback of a request touches neither the pool nor the tag map nor the send queue and
+    writes nothing — the tag comes back only with the broker's answer
+    (`C11_release_only_answered_or_unsent` for `cfg.fl = .kafka`). -/
+theorem C11_kafka_timeout_keeps_tag (s : St) (rid : Nat) :
+    (stepNotifyKafka s rid).1.pool = s.pool ∧ (stepNotifyKafka s rid).1.tagmap = s.tagmap ∧
+    (stepNotifyKafka s rid).1.sendq = s.sendq ∧ (stepNotifyKafka s rid).2.wrote = [] := by
+  unfold stepNotifyKafka
+  split
+  · split <;> exact ⟨rfl, rfl, rfl, rfl⟩
+  · exact ⟨rfl, rfl, rfl, rfl⟩
+
 /-! ### the code as found violates the specification (F6, F6b)
 
   The same executable `spec`, on the histories of the transport *without* the repairs.  The
@@ -220,7 +234,7 @@ theorem C11_unanswered_in_tagmap (cfg : Cfg) (ops : List Op) (hc : cfgWF cfg = t
 
 /-- F6: a non-ping frame on tag 1 puts tag 1 into the free set; the next request gets tag 1. -/
 theorem C11_reserved_counterexample_unrepaired :
-    (spec ⟨2 ^ 24 - 1⟩ (traceWith stepOpUnrepaired ⟨2 ^ 24 - 1⟩ St.init
+    (spec ⟨2 ^ 24 - 1, .thriftmux⟩ (traceWith stepOpUnrepaired ⟨2 ^ 24 - 1, .thriftmux⟩ St.init
       [.process (-2) 1, .req .noev 1, .send])).isOk = false ∧
     (stepOpUnrepaired (2 ^ 24 - 1) (stepOpUnrepaired (2 ^ 24 - 1) St.init (.process (-2) 1)).1 (.req .noev 1)).2.assigned = 1 := by
   constructor
@@ -230,14 +244,14 @@ theorem C11_reserved_counterexample_unrepaired :
 /-- F6: a frame on the not yet used tag 3 frees it; it is handed out from the free set and then
     again as a fresh tag, and both requests are written: two unanswered frames with tag 3. -/
 theorem C11_unique_counterexample_unrepaired :
-    (spec ⟨2 ^ 24 - 1⟩ (traceWith stepOpUnrepaired ⟨2 ^ 24 - 1⟩ St.init
+    (spec ⟨2 ^ 24 - 1, .thriftmux⟩ (traceWith stepOpUnrepaired ⟨2 ^ 24 - 1, .thriftmux⟩ St.init
       [.req .noev 0, .send, .process (-2) 3, .req .noev 3, .req .noev 0, .send, .send])).isOk = false := by
   rfl
 
 /-- F6b (with F6 repaired): a request answered while still queued is written on its released
     tag, which the next request carries too. -/
 theorem C11_unique_counterexample_answered_in_queue :
-    (spec ⟨2 ^ 24 - 1⟩ (traceWith stepOpF6bOnly ⟨2 ^ 24 - 1⟩ St.init
+    (spec ⟨2 ^ 24 - 1, .thriftmux⟩ (traceWith stepOpF6bOnly ⟨2 ^ 24 - 1, .thriftmux⟩ St.init
       [.req .noev 0, .process (-2) 2, .send, .req .noev 2, .send])).isOk = false := by
   rfl
 
@@ -245,16 +259,29 @@ theorem C11_unique_counterexample_answered_in_queue :
 
 /-- three requests, one dropped unsent (deadline already passed), one answered before it was
     written, one timed out after transmission and discarded; tag reuse; frames on tags 0, 1, 77 -/
-example : comp.wf ⟨2 ^ 24 - 1⟩
+example : comp.wf ⟨2 ^ 24 - 1, .thriftmux⟩
     [.req .pre 0, .req .ev 0, .process (-2) 3, .send, .send, .req .ev 3, .send, .fire 2, .notify 2,
      .send, .process (-2) 1, .process (-2) 77, .process 0 0, .process (-66) 3, .req .noev 2, .ping,
      .send, .send, .reopen, .req .noev 0, .send] = true := by decide
 
 /-- exhaustion of a pool of size 4: tags 2 and 3, then refusal -/
-example : comp.wf ⟨4⟩ [.req .noev 0, .req .noev 0, .req .noev 0, .send, .send, .process (-2) 2, .req .ev 2] = true := by
+example : comp.wf ⟨4, .thriftmux⟩ [.req .noev 0, .req .noev 0, .req .noev 0, .send, .send, .process (-2) 2, .req .ev 2] = true := by
   decide
 
-example : (stepOp 4 (stepOp 4 (stepOp 4 St.init (.req .noev 0)).1 (.req .noev 0)).1 (.req .noev 0)).2.res = .exhausted := by
+example : (stepOp .kafka 4 (stepOp .kafka 4 (stepOp .kafka 4 St.init (.req .noev 0)).1 (.req .noev 0)).1 (.req .noev 0)).2.res
+    = .exhausted := by
   decide
+
+/-- Kafka: a request that times out after transmission keeps its tag (no Tdiscarded exists);
+    replies carry arbitrary correlation ids (0, 1, unknown, repeated); the tag is reused only
+    after the broker's answer -/
+example : comp.wf ⟨2 ^ 24 - 1, .kafka⟩
+    [.req .ev 0, .req .pre 0, .send, .send, .fire 0, .notify 0, .req .noev 3, .send, .process 0 0,
+     .process 0 1, .process 0 77, .process 0 2, .process 0 2, .req .noev 2, .send, .reopen, .req .noev 0] = true := by
+  decide
+
+example : ((comp.modelTrace ⟨2 ^ 24 - 1, .kafka⟩
+    [.req .ev 0, .send, .fire 0, .notify 0, .req .noev 0, .send]).map (fun p => p.2.tagmap)) =
+    [[2], [2], [2], [2], [2, 3], [2, 3]] := by decide
 
 end Scales.TagPool
